@@ -170,17 +170,18 @@ class RESOLVE_FORWARD_TYPE:
     and any non-reference type are returned unchanged and reported as not resolved"""
     cases = {"evaluated-ref": dict(t=Rec("ForwardRef", __forward_evaluated__=TRUE)),
              "unevaluated-ref": dict(t=Rec("ForwardRef", __forward_evaluated__=FALSE)),
-             "plain-class": dict(t=Cls(name="t")), "none": dict(t=NONE)}
+             "plain-class": dict(t=Cls(name="t")), "other-object": dict(t=OBJ_NN), "none": dict(t=NONE)}
     returns_by_case = {"none": {"same_and_false": "result[0] is None and result[1] is False"},"evaluated-ref": {"value_and_true": "result[0] is t.__forward_value__ and result[1] is True"},
                        "unevaluated-ref": {"same_and_false": "result[0] is t and result[1] is False"},
-                       "plain-class": {"same_and_false": "result[0] is t and result[1] is False"}}
+                       "plain-class": {"same_and_false": "result[0] is t and result[1] is False"},
+                       "other-object": {"same_and_false": "result[0] is t and result[1] is False"}}
     only_raises = []
     result = Tup(OBJ, BOOL)
 
     @staticmethod
     def setup(ex, frame):
         t = frame.env["t"]
-        if isinstance(t, VCls):
+        if isinstance(t, (VCls, VObj)):
             # a plain class: not built by LogicalType
             from pyvc import extract
             lt = ex.world.repo_class(R, "LogicalType", ex)
@@ -206,11 +207,49 @@ class EVALUATE_FORWARD_REF:
     trusted = "typing._eval_type: external"
 
 
+def _pf_resolve_cases():
+    out = {}
+    for tn, td in (("type-evaluated", Rec("ForwardRef", __forward_evaluated__=TRUE)), ("type-pending", Rec("ForwardRef", __forward_evaluated__=FALSE)),
+                   ("type-plain", Cls(name="ftype")), ("type-none", NONE)):
+        for on, od in (("output-none", NONE), ("output-plain", Cls(name="otype")), ("output-evaluated", Rec("ForwardRef", __forward_evaluated__=TRUE))):
+            out["%s,%s" % (tn, on)] = dict(self=Rec("ParserField", type=td, output_type=od))
+    return out
+
+
+def _pf_resolve_post(case):
+    tn, on = case.split(",")
+    t = {"type-evaluated": "self.type is old(self.type).__forward_value__", "type-pending": "self.type is old(self.type)",
+         "type-plain": "self.type is old(self.type)", "type-none": "self.type is None"}[tn]
+    o = {"output-none": "self.output_type is None", "output-plain": "self.output_type is old(self.output_type)",
+         "output-evaluated": "self.output_type is old(self.output_type).__forward_value__"}[on]
+    return {"input_type_follows_its_own_reference": t, "output_type_follows_its_own_reference": o}
+
+
 @contract("utype/parser/field.py", "ParserField.resolve_forward_refs", props=["C17"])
 class FIELD_RESOLVE:
-    cases = {"any": dict(self=Rec("ParserField"))}
+    """after a parser resolved references, each field re-reads ITS OWN two types: the input type becomes the value of the
+    reference it held (or stays what it was), and so does the output type -- independently of each other (a property's
+    return type is not overwritten by its input type, which is None)."""
+    cases = _pf_resolve_cases()
+    returns_by_case = {cn: _pf_resolve_post(cn) for cn in _pf_resolve_cases()}
     only_raises = []
-    trusted = "interface: re-resolves the field's own types (Rule / LogicalType resolve_forward_refs): not verified here"
+    modifies = ["self"]
+    assumes = ["types are a reference, a plain class or None (a combination / constrained type re-resolves itself: LogicalType / "
+               "Rule.resolve_forward_refs, not followed here)"]
+
+    @staticmethod
+    def setup(ex, frame):
+        for nm in ("type", "output_type"):
+            t = frame.env["self"].fields[nm]
+            if isinstance(t, VCls):
+                lt = ex.world.repo_class(R, "LogicalType", ex)
+                ex.assume(z3.Not(sym.sub(sym.ty(t.t), lt.t)))
+                ex.assume(z3.Not(sym.sub(sym.ty(t.t), ex.world.classes.of_py(typing.ForwardRef).t)))
+                ex.assume(sym.truthy_f(t.t))
+            if isinstance(t, VRec):
+                v = t.fields.get("__forward_value__")
+                if isinstance(v, VObj):
+                    ex.assume(sym.truthy_f(v.t))
 
 
 class _RefParserDesc(Desc):
